@@ -9,6 +9,12 @@ SD_OPS = ('tls_plaintext', 'tls_raw', 'tls_encrypted', 'dtls_record', 'msg_hands
           'sct', 'sct_list', 'dh', 'ecdh', 'ec_params', 'dsig', 'dsig_old', 'content_sig', 'tls_header', 'dtls_header', 'ext_unknown')
 
 
+KNOWN_EXT_TYPES = {0, 1, 5, 10, 11, 13, 15, 16, 18, 21, 22, 23, 28, 35, 40, 41, 42, 43, 44, 45, 48, 49, 51, 13172, 0xff01, 0xffce, 0x1234, 0x0a0a}
+TAG_TYPES = {'sni': 0, 'max_fragment_length': 1, 'status_request': 5, 'elliptic_curves': 10, 'ec_point_formats': 11, 'signature_algorithms': 13,
+             'heartbeat': 15, 'encrypt_then_mac': 22, 'extended_master_secret': 23, 'session_ticket': 35, 'key_share': 51, 'pre_shared_key': 41,
+             'early_data': 42, 'supported_versions': 43, 'cookie': 44, 'psk_key_exchange_modes': 45}
+
+
 def spans_ok(value, consumed):
     """every @off+len of the value lies inside [0, consumed)"""
     for m in re.finditer(r'(?<![B\w])@(\d+)\+(\d+)', value):
@@ -43,6 +49,21 @@ def run(ctx):
             if n > 0:
                 base.append(c)
                 suffixes.append(rng.randbytes(n))
+    # single extensions with the declared length present and ARBITRARY (mostly malformed) content of every small length,
+    # through the three dispatchers and the 16 single-purpose parsers: a content parser with a fixed-width read (u8 / u16 /
+    # u32 / length-prefixed list) must not look past the declared length whatever that length is
+    framed0 = len(base)
+    nxt = b'\x00\x17\x00\x00'
+    for t in sorted(KNOWN_EXT_TYPES):
+        ops = ['ext', 'ext_client', 'ext_server'] + ['ext_tag_' + n for n, tt in TAG_TYPES.items() if tt == t]
+        for L in list(range(0, 10)) + [16, 40]:
+            for rep in range(2 if L else 1):
+                data = rng.randbytes(L) if rep else bytes([0] * L)
+                buf = t.to_bytes(2, 'big') + L.to_bytes(2, 'big') + data
+                for op in ops:
+                    for sfx in (nxt, rng.randbytes(rng.choice((1, 2, 3, 4, 8))), b'\x00' * 6, b'\xff' * 5):
+                        base.append(enc.Case('framed_ext/' + op, (op,), buf, [], None))
+                        suffixes.append(sfx)
     lines = [c.line for c in base] + [' '.join(c.op + (core.hexs(c.buf + s),)) for c, s in zip(base, suffixes)]
     impl, model = ctx.run_both(lines)
     N = len(base)
@@ -64,6 +85,8 @@ def run(ctx):
                 bad = 'a slice of the value lies outside the input buffer (copied or static data): %s' % a[:160]
             elif sa.get('remptr') == 'bad' or sb.get('remptr') == 'bad':
                 bad = 'remainder is not the input suffix that follows the consumed bytes'
+        elif k >= framed0 and pa[0] != pb[0]:
+            bad = 'the extension holds its declared length, yet appending bytes changed the outcome class: "%s" -> "%s"' % (a, b[:100])
         elif pa[0] in ('error', 'failure'):
             if pb[0] != pa[0]:
                 bad = 'input already holds the declared length, yet appending bytes changed the outcome class: "%s" -> "%s"' % (a, b[:100])
@@ -95,7 +118,7 @@ def run(ctx):
             ctx.violation('defragmenter result slices differ from accumulate-then-parse: "%s" vs "%s"' % (ra[:160], exp[:160]), {'lines': [ln], 'expect': exp}, key='rp:span')
     common.lean_failure_violation(ctx, ok)
     return ctx.finish(LEVEL,
-        rule='every self-delimiting op on well-formed (independent encoder) and length-corrupted inputs, each re-run with a suffix (random bytes / a copy of the structure itself / a record header): value unchanged and remainder extended on success, outcome class unchanged on non-Incomplete failure, every span of the value inside the consumed prefix, no slice outside the input (X:), remainder pointer = input + consumed, and spans equal to those of the model run on position-tagged bytes; defragmenter histories: spans in the record (@) or the buffer (B@) exactly as accumulate-then-parse predicts; distinct = (op, outcome shape)',
+        rule='every self-delimiting op on well-formed (independent encoder) and length-corrupted inputs, each re-run with a suffix (random bytes / a copy of the structure itself / a record header): value unchanged and remainder extended on success, outcome class unchanged on non-Incomplete failure, every span of the value inside the consumed prefix, no slice outside the input (X:), remainder pointer = input + consumed; single extensions of every known type with arbitrary content of every small declared length through the three dispatchers and the 16 single-purpose parsers (outcome class and value independent of what follows); spans equal to those of the model run on position-tagged bytes; defragmenter histories: spans in the record (@) or the buffer (B@) exactly as accumulate-then-parse predicts; distinct = (op, outcome shape)',
         checker_cmd='cd /verif/lean && lake build TlsModel.Props.C06',
         assumptions=['alias is a theorem for the slice-producing primitives and raw records; for composite values it is checked span by span against the model on tagged bytes'])
 
